@@ -156,6 +156,9 @@ type World struct {
 	Seed      uint64
 	Serial    bool // one delivery per step (true) or several concurrently (false)
 	NonFIFO   bool // links may reorder (default: reliable FIFO per direction)
+	// JoinProposals: in concurrent-dispatch mode scenario events (API calls, cancellations) may be started in the
+	// same step as deliveries and as one another (C20)
+	JoinProposals bool
 	MaxConc   int
 	Nodes     map[uint16]*Node
 	Links     map[[2]uint16]*Link
@@ -662,25 +665,44 @@ func (w *World) Run(s Scheduler, lim RunLimits, done func() bool) *Violation {
 		if c.Link != nil {
 			w.record(Action{K: c.Key, C: c.Link.Q[0].Class()})
 			w.deliver(c.Link)
-			for k := 1; !w.Serial && k < w.MaxConc; k++ {
-				var more []Choice
-				for _, l := range w.Enabled() {
-					more = append(more, Choice{Key: l.Key(), Link: l})
-				}
-				if len(more) == 0 {
-					break
-				}
-				j := s.Join(w, more)
-				if j < 0 {
-					break
-				}
-				w.record(Action{K: more[j].Key, C: more[j].Link.Q[0].Class(), J: true})
-				w.Probes["concurrent-dispatch"]++
-				w.deliver(more[j].Link)
-			}
 		} else {
 			w.record(Action{K: c.Key})
 			c.Proposal.Fire()
+		}
+		// concurrent dispatch: further deliveries - and, where the scenario allows it (JoinProposals), further
+		// scenario events such as API calls or cancellations - are started in the same step, each on its own
+		// goroutine. Steps are separated by synctest.Wait, which orders everything before it with everything after
+		// it, so only activities of one step are unordered for the race detector.
+		for k := 1; !w.Serial && k < w.MaxConc; k++ {
+			var more []Choice
+			for _, l := range w.Enabled() {
+				more = append(more, Choice{Key: l.Key(), Link: l})
+			}
+			if w.JoinProposals && w.Propose != nil {
+				ps := w.Propose()
+				for i := range ps {
+					if strings.HasPrefix(ps[i].Key, "inj:") || strings.HasPrefix(ps[i].Key, "g:") {
+						continue // injections are the adversary's own, sequential decisions
+					}
+					more = append(more, Choice{Key: ps[i].Key, Proposal: &ps[i]})
+				}
+			}
+			if len(more) == 0 {
+				break
+			}
+			j := s.Join(w, more)
+			if j < 0 {
+				break
+			}
+			if more[j].Link != nil {
+				w.record(Action{K: more[j].Key, C: more[j].Link.Q[0].Class(), J: true})
+				w.Probes["concurrent-dispatch"]++
+				w.deliver(more[j].Link)
+			} else {
+				w.record(Action{K: more[j].Key, J: true})
+				w.Probes["concurrent-api-event"]++
+				more[j].Proposal.Fire()
+			}
 		}
 	}
 }
